@@ -709,10 +709,21 @@ impl Context {
         code: &'a str,
         code_source: CodeSource,
     ) -> Result<(Vec<typed_ast::Statement<'a>>, InterpreterResult)> {
-        let statements = self
+        // Remember which modules have been imported so far. If this input fails at any
+        // later stage, none of its definitions survive, so the modules it imported must
+        // not be considered as imported either (a later `use` has to load them again).
+        let imported_modules_old = self.resolver.imported_modules.clone();
+
+        let result = self
             .resolver
             .resolve(code, code_source.clone())
-            .map_err(NumbatError::ResolverError)?;
+            .map_err(NumbatError::ResolverError);
+
+        if result.is_err() {
+            self.resolver.imported_modules = imported_modules_old.clone();
+        }
+
+        let statements = result?;
 
         let prefix_transformer_old = self.prefix_transformer.clone();
 
@@ -732,6 +743,7 @@ impl Context {
             //     >>> fn f(h_) = 1     # <-- here we want to use 'f' again
             //
             self.prefix_transformer = prefix_transformer_old.clone();
+            self.resolver.imported_modules = imported_modules_old.clone();
         }
 
         let transformed_statements = result?;
@@ -756,6 +768,7 @@ impl Context {
             //
             self.prefix_transformer = prefix_transformer_old.clone();
             self.typechecker = typechecker_old.clone();
+            self.resolver.imported_modules = imported_modules_old.clone();
 
             if self.load_currency_module_on_demand
                 && let Err(NumbatError::TypeCheckError(TypeCheckError::UnknownIdentifier(
@@ -830,6 +843,7 @@ impl Context {
             self.prefix_transformer = prefix_transformer_old;
             self.typechecker = typechecker_old;
             self.interpreter = interpreter_old;
+            self.resolver.imported_modules = imported_modules_old;
         }
 
         let result = result.map_err(|err| NumbatError::RuntimeError(*err))?;
